@@ -1335,7 +1335,13 @@ class FuncWalker:
                 continue
             r = root_name(ex)
             if r and r in st.env:
-                self._weak(st, r, self._subst(toks, bind, st), e)
+                sub = self._subst(toks, bind, st)
+                # a write of values derived from the object itself adds no dependence (and no control dependence)
+                if sub - st.env[r]:
+                    self._weak(st, r, sub, e)
+                else:
+                    self._note_mut(st, r, E if self.data_only else frozenset(), e)
+                    self.res.stores.append((e, r, sub, self._ctl()))
         return out
 
     def _callee_comps(self, cr: Optional[CallRec], e: ast.Call, st: _State) -> Optional[Tuple[Tok, ...]]:
